@@ -55,6 +55,14 @@ THOROUGH = QUICK + [
     _k('scaled_free_take', mode='free', base='take', T=3),
     _k('structured_2int', mode='struct', T=2, two_internal=True),
     _k('structured_T4_inner_wider', mode='struct', T=4, inner_win=(-1, 5), outer_win=(1, 3)),
+    # deeper variants of the quick cases: longer horizons, discounting with other bases
+    _k('scaled_fixed_storage_T5', mode='fixed', base='storage', T=5),
+    _k('scaled_free_storage_T4', mode='free', base='storage', T=4),
+    _k('scaled_fixed_transport_discounted', mode='fixed', base='transport', T=3, freq='d', unit='h', wacc=True),
+    _k('scaled_fixed_take_discounted_window', mode='fixed', base='take', T=4, win=(1, 4), freq='d', unit='d', wacc=True),
+    _k('scaled_free_storage_discounted', mode='free', base='storage', T=3, freq='d', unit='d', wacc=True),
+    _k('structured_with_order_book_inside_T4_windows', mode='struct', T=4, inner_orderbook=True, inner_win=(0, 3), outer_win=(1, 4)),
+    _k('structured_two_external_nodes_T4', mode='struct', T=4, two_external=True),
 ]
 BOUNDS = dict(quick='%s; T<=4; fixed scale: generic concrete scale/normalisation with symbolic base parameters; free scale: symbolic scale variable with generic concrete base parameters' % [c[0] for c in QUICK],
               thorough='%s; Level B (symbolic scale and parameters) for *_B' % [c[0] for c in THOROUGH])
